@@ -8,7 +8,14 @@ require (
 )
 
 require (
+	github.com/eclipse/paho.mqtt.golang v1.3.5 // indirect
 	github.com/pion/dtls/v2 v2.1.3 // indirect
+	github.com/pion/logging v0.2.2 // indirect
+	github.com/pion/transport v0.13.0 // indirect
+	github.com/pion/udp v0.1.1 // indirect
+	golang.org/x/crypto v0.0.0-20220314234724-5d542ad81a58 // indirect
+	golang.org/x/sync v0.0.0-20210220032951-036812b2e83c // indirect
+	golang.org/x/xerrors v0.0.0-20200804184101-5ec99f83aff1 // indirect
 	gopkg.in/yaml.v3 v3.0.0-20210107192922-496545a6307b // indirect
 )
 
